@@ -60,7 +60,24 @@ _COV = re.compile(r"^<(\w+) line \d+, col \d+ to line \d+, col \d+ of module (\w
 def scratch_dir(prefix="vtlc_"):
     base = os.environ.get("VERIF_SCRATCH") or tempfile.gettempdir()
     os.makedirs(base, exist_ok=True)
+    _janitor(base)
     return tempfile.mkdtemp(prefix=prefix, dir=base)
+
+
+def _janitor(base, max_age_s=6 * 3600):
+    """Remove our own scratch directories left behind by runs that were killed (SIGKILL / time limit)."""
+    now = time.time()
+    try:
+        for fn in os.listdir(base):
+            if fn.startswith(("vtlc_", "vtr_", "vpair_", "vcfg_", "vrng_")):
+                p = os.path.join(base, fn)
+                try:
+                    if os.path.isdir(p) and now - os.path.getmtime(p) > max_age_s:
+                        shutil.rmtree(p, ignore_errors=True)
+                except OSError:
+                    pass
+    except OSError:
+        pass
 
 
 def run_tlc(
